@@ -39,6 +39,9 @@ CLAIMED = {
     'C08': dict(
         text="Fail-fast is decided on the option merge (cli || builder), the ingester (stops after the first parser error) and the simulated real scheduler loop: after the loop has observed a final failure no further attempt is dispatched, every started attempt finishes, all brackets close, run-Finished is last; a retried failure does not trip it; without failures every scenario runs.",
         note="Kernels: Runner::run prefix, insert_features, execute() across polls with fail_fast on over worlds with limits 1..3 and retry budget <= 1. " + SIM),
+    'C17': dict(
+        text="The real step::Collection::find is executed symbolically over association maps whose iteration order is a symbolic permutation, with the regex engine replaced by an oracle table (match verdict, group participation and spans symbolic; group count and names fixed per definition). Counterexamples are confirmed by a native differential replay of the public find() against Python's re on a grid of definitions, registration orders and texts.",
+        note="3 definitions with 0/1/2 capture groups placed on the three keywords in 4 layouts (thorough: all 27); step keyword symbolic; every iteration order of the keyword maps. Outside: the regex engine itself, multi-byte text, more than 3 definitions. Sorting by (regex, location) is modelled as sorting by definition index (texts r0 < r1 < r2)."),
 }
 NA_REASON = {
     'C14': 'reporters: the facts leave through serde_json / junit-report / console styling / io::Write and the oracle is a parse-back of text; nothing of the property is left once those library calls are opaque (DESIGN.md section 3)',
